@@ -176,10 +176,24 @@ def run(ctx):
                 hist.append(s if len(s) < 80 else "%s...(%d chars)" % (s[:40], len(s)))
                 before = cur
                 if on_disk:
+                    same_handle = None
                     with open(path, "r+b") as f:
                         mammoth.embed_style_map(f, s)
+                        # "after embed_style_map(file, s), read_embedded_style_map(file) returns s": through THE SAME file object
+                        try:
+                            same_handle = (mammoth.read_embedded_style_map(f), None)
+                            f.seek(0)
+                            same_handle = (same_handle[0], f.read())
+                        except Exception as e:
+                            same_handle = ("raised %s" % type(e).__name__, None)
                     with open(path, "rb") as f:
                         cur = f.read()
+                    if same_handle[0] != s or same_handle[1] != cur:
+                        ctx.violation("oracle", "after embedding %d maps (r+b file): the file object that was passed in does not give the embedded map back / does not hold the bytes of the file "
+                                      "(read_embedded_style_map(file) = %r)" % (len(hist), same_handle[0] if same_handle[0] is None or len(str(same_handle[0])) < 60 else str(same_handle[0])[:60]),
+                                      {"history": hist, "on_disk": True, "package": gen_xml.pkg_json(pkg), "api": "mammoth.embed_style_map / read_embedded_style_map on one file object"}, True)
+                        ok = False
+                        break
                 else:
                     f = io.BytesIO(cur)
                     mammoth.embed_style_map(f, s)
